@@ -608,3 +608,263 @@ Proof.
   change (Nat.max 256 1) with 256%nat in Hlt.
   repeat split; assumption.
 Qed.
+
+(* ================================================================== 7. string.to_int *)
+Local Open Scope Z_scope.
+
+Definition is_dec (c : N) : bool := ((48 <=? c) && (c <=? 57))%N.
+Definition dec_step (a : Z) (c : N) : Z := a * 10 + (Z.of_N c - 48).
+Definition dec_value (a : Z) (l : list N) : Z := fold_left dec_step l a.
+
+Lemma digit_in_dec c : is_dec c = true -> digit_in 10 c = Some (Z.of_N c - 48).
+Proof.
+  unfold is_dec, digit_in, digit_val. intros H. rewrite H.
+  apply andb_true_iff in H as [H1 H2]. apply N.leb_le in H1, H2.
+  replace (Z.of_N c - 48 <? 10) with true; [reflexivity|]. symmetry. apply Z.ltb_lt. lia.
+Qed.
+
+Lemma take_digits_dec l : forall acc n,
+  forallb is_dec l = true -> take_digits 10 l acc n = (dec_value acc l, (n + length l)%nat, []).
+Proof.
+  induction l as [|c r IH]; intros acc n H; cbn [take_digits dec_value fold_left length].
+  - now rewrite Nat.add_0_r.
+  - cbn [forallb] in H. apply andb_true_iff in H as [Hc Hr].
+    rewrite digit_in_dec by assumption. rewrite IH by assumption.
+    unfold dec_value, dec_step. f_equal. f_equal. lia.
+Qed.
+
+Lemma digit_char_dec d : 0 <= d < 10 -> is_dec (digit_char d) = true /\ Z.of_N (digit_char d) - 48 = d.
+Proof.
+  intros Hd. unfold digit_char. replace (d <? 10) with true by (symmetry; apply Z.ltb_lt; lia).
+  unfold is_dec. split.
+  - apply andb_true_iff. split; apply N.leb_le; lia.
+  - lia.
+Qed.
+
+Lemma digits_of_dec fuel : forall n acc,
+  0 <= n -> forallb is_dec acc = true -> forallb is_dec (digits_of fuel 10 n acc) = true.
+Proof.
+  induction fuel as [|f IH]; intros n acc Hn Hacc; cbn [digits_of]; [assumption|].
+  assert (Hd : is_dec (digit_char (n mod 10)) = true) by (apply digit_char_dec; apply Z.mod_pos_bound; lia).
+  destruct (n <? 10).
+  - cbn [forallb]. now rewrite Hd.
+  - apply IH; [apply Z.div_pos; lia|]. cbn [forallb]. now rewrite Hd.
+Qed.
+
+Lemma digits_of_value fuel : forall n acc,
+  0 <= n < 10 ^ Z.of_nat fuel -> dec_value 0 (digits_of fuel 10 n acc) = dec_value n acc.
+Proof.
+  induction fuel as [|f IH]; intros n acc Hn.
+  - cbn in Hn. assert (n = 0) by lia. subst. reflexivity.
+  - cbn [digits_of].
+    pose proof (digit_char_dec (n mod 10) ltac:(apply Z.mod_pos_bound; lia)) as [_ Hv].
+    destruct (n <? 10) eqn:E.
+    + apply Z.ltb_lt in E. unfold dec_value. cbn [fold_left]. unfold dec_step at 2.
+      rewrite Hv. rewrite Z.mod_small by lia. reflexivity.
+    + apply Z.ltb_ge in E. rewrite IH.
+      * unfold dec_value. cbn [fold_left]. unfold dec_step at 2. rewrite Hv.
+        f_equal. pose proof (Z.div_mod n 10 ltac:(lia)). lia.
+      * rewrite Nat2Z.inj_succ, Z.pow_succ_r in Hn by lia.
+        split; [apply Z.div_pos; lia|]. apply Z.div_lt_upper_bound; lia.
+Qed.
+
+(* the first digit printed for a positive number is not '0' *)
+Lemma digits_of_head fuel : forall n acc,
+  0 < n < 10 ^ Z.of_nat fuel ->
+  exists c r, digits_of fuel 10 n acc = c :: r /\ (49 <= c <= 57)%N.
+Proof.
+  induction fuel as [|f IH]; intros n acc Hn.
+  - cbn in Hn. lia.
+  - cbn [digits_of]. destruct (n <? 10) eqn:E.
+    + apply Z.ltb_lt in E. exists (digit_char (n mod 10)), acc. split; [reflexivity|].
+      rewrite Z.mod_small by lia. unfold digit_char.
+      replace (n <? 10) with true by (symmetry; apply Z.ltb_lt; lia). lia.
+    + apply Z.ltb_ge in E. apply IH.
+      rewrite Nat2Z.inj_succ, Z.pow_succ_r in Hn by lia.
+      split; [apply Z.div_str_pos; lia|]. apply Z.div_lt_upper_bound; lia.
+Qed.
+
+Lemma cstr_id l : forallb (fun c => negb (c =? 0)%N) l = true -> cstr l = l.
+Proof.
+  induction l as [|c r IH]; intros H; [reflexivity|].
+  cbn [forallb] in H. apply andb_true_iff in H as [Hc Hr].
+  cbn [cstr]. destruct (c =? 0)%N; [discriminate|]. now rewrite IH.
+Qed.
+
+Lemma dec_nonzero l : forallb is_dec l = true -> forallb (fun c => negb (c =? 0)%N) l = true.
+Proof.
+  induction l as [|c r IH]; intros H; [reflexivity|].
+  cbn [forallb] in *. apply andb_true_iff in H as [Hc Hr]. rewrite IH by assumption.
+  unfold is_dec in Hc. apply andb_true_iff in Hc as [H1 _]. apply N.leb_le in H1.
+  replace (c =? 0)%N with false; [reflexivity|]. symmetry. apply N.eqb_neq. lia.
+Qed.
+
+(* strtoll on [sign] digits, the first digit 1..9, base 0 *)
+Lemma strtoll_body_dec neg s c r :
+  (49 <= c <= 57)%N -> forallb is_dec r = true ->
+  strtoll_body neg s (c :: r) 0 = strtoll_finish neg (dec_value 0 (c :: r)) [].
+Proof.
+  intros Hc Hr. unfold strtoll_body.
+  assert (Hc48 : (c =? 48)%N = false) by (apply N.eqb_neq; lia).
+  assert (Hhex : has_hex_prefix (c :: r) = false).
+  { unfold has_hex_prefix. destruct r as [|x [|h t]]; try reflexivity. now rewrite Hc48. }
+  rewrite Hhex. cbn [Z.eqb orb andb]. rewrite Hc48.
+  assert (Hd : forallb is_dec (c :: r) = true).
+  { cbn [forallb]. rewrite Hr. unfold is_dec.
+    replace (48 <=? c)%N with true by (symmetry; apply N.leb_le; lia).
+    replace (c <=? 57)%N with true by (symmetry; apply N.leb_le; lia). reflexivity. }
+  rewrite take_digits_dec by assumption. reflexivity.
+Qed.
+
+Lemma strtoll_finish_ok (neg : bool) (v : Z) :
+  in64 (if neg then - v else v) ->
+  strtoll_finish neg v [] = {| st_value := if neg then - v else v; st_noconv := false; st_rest := []; st_erange := false |}.
+Proof.
+  unfold in64, strtoll_finish. intros [H1 H2].
+  replace ((if neg then - v else v) <? INT64_MIN) with false by (symmetry; apply Z.ltb_ge; lia).
+  replace (INT64_MAX <? (if neg then - v else v)) with false by (symmetry; apply Z.ltb_ge; lia).
+  reflexivity.
+Qed.
+
+Lemma pow10_64 : 9223372036854775808 < 10 ^ Z.of_nat 64.
+Proof. vm_compute. reflexivity. Qed.
+
+Lemma string_to_int_print_dec z : in64 z -> string_to_int (print_dec z) 0 = Some z.
+Proof.
+  intros Hz. unfold string_to_int.
+  assert (Hz' := Hz). unfold in64, INT64_MIN, INT64_MAX in Hz'.
+  pose proof pow10_64 as P.
+  unfold print_dec. destruct (z <? 0) eqn:Hneg.
+  - apply Z.ltb_lt in Hneg.
+    destruct (digits_of_head 64 (- z) [] ltac:(lia)) as (c & r & Hcr & Hc).
+    assert (Hdec : forallb is_dec (print_nat 10 (- z)) = true) by (apply digits_of_dec; [lia|reflexivity]).
+    assert (Hval : dec_value 0 (print_nat 10 (- z)) = - z) by (unfold print_nat; rewrite digits_of_value by lia; reflexivity).
+    unfold print_nat in *. rewrite Hcr in *.
+    rewrite cstr_id.
+    2:{ pose proof (dec_nonzero _ Hdec) as Hnz0. cbn [forallb]. cbn [forallb] in Hnz0. rewrite Hnz0. reflexivity. }
+    unfold strtoll. cbn [skip_space is_space N.leb N.eqb N.compare Pos.compare Pos.compare_cont andb orb Pos.eqb].
+    cbn [forallb] in Hdec. apply andb_true_iff in Hdec as [_ Hr].
+    rewrite strtoll_body_dec by assumption. rewrite Hval.
+    rewrite strtoll_finish_ok by (rewrite Z.opp_involutive; exact Hz).
+    cbn [st_erange st_noconv st_rest st_value]. now rewrite Z.opp_involutive.
+  - apply Z.ltb_ge in Hneg.
+    destruct (Z.eq_dec z 0) as [->|Hnz]; [vm_compute; reflexivity|].
+    destruct (digits_of_head 64 z [] ltac:(lia)) as (c & r & Hcr & Hc).
+    assert (Hdec : forallb is_dec (print_nat 10 z) = true) by (apply digits_of_dec; [lia|reflexivity]).
+    assert (Hval : dec_value 0 (print_nat 10 z) = z) by (unfold print_nat; rewrite digits_of_value by lia; reflexivity).
+    unfold print_nat in *. rewrite Hcr in *.
+    rewrite cstr_id by (now apply dec_nonzero).
+    unfold strtoll.
+    assert (Hsp : is_space c = false).
+    { unfold is_space. replace (c <=? 13)%N with false by (symmetry; apply N.leb_gt; lia).
+      replace (c =? 32)%N with false by (symmetry; apply N.eqb_neq; lia). now rewrite andb_false_r. }
+    cbn [skip_space]. rewrite Hsp.
+    replace (c =? 45)%N with false by (symmetry; apply N.eqb_neq; lia).
+    replace (c =? 43)%N with false by (symmetry; apply N.eqb_neq; lia).
+    cbn [forallb] in Hdec. apply andb_true_iff in Hdec as [_ Hr].
+    rewrite strtoll_body_dec by assumption. rewrite Hval.
+    rewrite strtoll_finish_ok by exact Hz.
+    reflexivity.
+Qed.
+
+Lemma to_int_roundtrip_lemma z :
+  in64 z -> z <> YR_UNDEFINED -> mod_to_int (print_dec z) = Some z.
+Proof.
+  intros Hz Hu. unfold mod_to_int. rewrite string_to_int_print_dec by assumption.
+  unfold ret_int. replace (z =? YR_UNDEFINED) with false; [reflexivity|]. symmetry. now apply Z.eqb_neq.
+Qed.
+
+(* the one value that cannot be returned: it is the representation of "undefined" *)
+Lemma to_int_roundtrip_refuted_lemma :
+  exists z, in64 z /\ mod_to_int (print_dec z) <> Some z.
+Proof. exists YR_UNDEFINED. split; [unfold in64, INT64_MIN, INT64_MAX, YR_UNDEFINED; lia|]. vm_compute. discriminate. Qed.
+
+(* ================================================================== 8. integer functions of math *)
+Lemma uz_wrap z : in64 z -> wrap64 (uz z) = z.
+Proof.
+  unfold in64, INT64_MIN, INT64_MAX, wrap64, uz, two64. intros H.
+  Z.div_mod_to_equations. lia.
+Qed.
+
+(* math.min / math.max are the minimum / maximum of the arguments read as unsigned 64-bit numbers *)
+Lemma math_min_spec i j : in64 i -> in64 j -> i <> YR_UNDEFINED -> j <> YR_UNDEFINED ->
+  math_min i j = Some (if uz i <? uz j then i else j).
+Proof.
+  intros Hi Hj Ui Uj. unfold math_min, arg_def, ret_int.
+  apply Z.eqb_neq in Ui, Uj. rewrite Ui, Uj. cbn [negb andb].
+  destruct (uz i <? uz j); rewrite uz_wrap by assumption; [now rewrite Ui|now rewrite Uj].
+Qed.
+Lemma math_max_spec i j : in64 i -> in64 j -> i <> YR_UNDEFINED -> j <> YR_UNDEFINED ->
+  math_max i j = Some (if uz j <? uz i then i else j).
+Proof.
+  intros Hi Hj Ui Uj. unfold math_max, arg_def, ret_int.
+  apply Z.eqb_neq in Ui, Uj. rewrite Ui, Uj. cbn [negb andb].
+  destruct (uz j <? uz i); rewrite uz_wrap by assumption; [now rewrite Ui|now rewrite Uj].
+Qed.
+
+Lemma math_abs_partial i : in64 i -> i <> INT64_MIN -> i <> YR_UNDEFINED -> Z.abs i <> YR_UNDEFINED ->
+  math_abs i = Some (Z.abs i).
+Proof.
+  intros Hi Hm Ui Ua. unfold math_abs, arg_def, ret_int.
+  apply Z.eqb_neq in Hm, Ui, Ua. now rewrite Ui, Hm, Ua.
+Qed.
+Lemma math_abs_refuted_lemma : exists i, in64 i /\ i <> YR_UNDEFINED /\ math_abs i <> Some (Z.abs i).
+Proof.
+  exists INT64_MIN. repeat split; try (unfold in64, INT64_MIN, INT64_MAX, YR_UNDEFINED; lia).
+  vm_compute. discriminate.
+Qed.
+
+(* ================================================================== 9. refutations of the unrestricted statements,
+   and non-vacuity examples *)
+Local Open Scope N_scope.
+
+(* 4.5.2 loop: a zero-length range that starts exactly where a later block starts is undefined, although the
+   same bytes presented as one block give the digest of the empty string *)
+Lemma addressed_bytes_exact_refuted_lemma :
+  exists parts off len, nonempty_parts parts /\
+    addressed false (blocks_of 0 parts) off len <> range_spec 0 (concat parts) off len /\
+    addressed false [mkblock 0 (concat parts)] off len = range_spec 0 (concat parts) off len.
+Proof.
+  exists [[97; 98; 99]; [100; 101; 102]], 3%Z, 0%Z. split.
+  - repeat constructor; discriminate.
+  - split; vm_compute; [discriminate|reflexivity].
+Qed.
+
+(* an empty block between two contiguous blocks also cuts the range (both loop variants) *)
+Lemma empty_block_refuted_lemma :
+  exists fixd parts off len,
+    addressed fixd (blocks_of 0 parts) off len <> range_spec 0 (concat parts) off len.
+Proof. exists true, [[97; 98; 99]; []; [100; 101; 102]], 1%Z, 4%Z. vm_compute. discriminate. Qed.
+
+Example ex_single_clip : addressed false [mkblock 0 [1; 2; 3; 4]] 2 100 = Some [3; 4].
+Proof. vm_compute. reflexivity. Qed.
+Example ex_single_outside : addressed false [mkblock 0 [1; 2; 3; 4]] 4 0 = None.
+Proof. vm_compute. reflexivity. Qed.
+Example ex_multi_cross : addressed false (blocks_of 0 [[1; 2; 3]; [4; 5]; [6]]) 1 5 = Some [2; 3; 4; 5; 6].
+Proof. vm_compute. reflexivity. Qed.
+Example ex_gap : addressed false [mkblock 0 [1; 2; 3]; mkblock 5 [4; 5]] 1 4 = None.
+Proof. vm_compute. reflexivity. Qed.
+Example ex_gap_inside_first : addressed false [mkblock 0 [1; 2; 3]; mkblock 5 [4; 5]] 1 2 = Some [2; 3].
+Proof. vm_compute. reflexivity. Qed.
+Example ex_contig_hyp : nonempty_parts [[1; 2; 3]; [4; 5]] /\ (0 <= 0)%Z.
+Proof. split; [repeat constructor; discriminate|lia]. Qed.
+Example ex_crc_check : crc32_table [49; 50; 51; 52; 53; 54; 55; 56; 57] = 0xCBF43926 /\ all_bytes [49; 50; 51; 52; 53; 54; 55; 56; 57] = true.
+Proof. split; vm_compute; reflexivity. Qed.
+Example ex_checksum_wrap : checksum32 (repeat 255 3) = 765.
+Proof. vm_compute. reflexivity. Qed.
+Example ex_mode_tie : mode_of (hist_add hist0 [7; 3; 7; 3; 9]) = 3.
+Proof. vm_compute. reflexivity. Qed.
+Example ex_cache_hit :
+  results_with_cache (list N) (fun a l => l) false [mkblock 0 [1; 2; 3]] [(MD5, 0, 2); (MD5, 0, 3); (MD5, 0, 2); (SHA1, 0, 2)]%Z
+  = [Some [1; 2]; Some [1; 2; 3]; Some [1; 2]; Some [1; 2]].
+Proof. vm_compute. reflexivity. Qed.
+Example ex_calls_in64 : Forall (fun q : call => let '(a, off, len) := q in in64 off /\ in64 len) [(MD5, 0, 2); (SHA256, -1, 9223372036854775807)]%Z.
+Proof. repeat constructor; unfold in64, INT64_MIN, INT64_MAX; lia. Qed.
+Example ex_to_int : mod_to_int [32; 45; 48; 120; 49; 70] = Some (-31)%Z /\ mod_to_int [48; 120] = None /\ mod_to_int [49; 0; 50] = Some 1%Z
+                    /\ mod_to_int_base [122] 36 = Some 35%Z /\ mod_to_int [57; 50; 50; 51; 51; 55; 50; 48; 51; 54; 56; 53; 52; 55; 55; 53; 56; 48; 56] = None.
+Proof. repeat split; vm_compute; reflexivity. Qed.
+Example ex_roundtrip_hyp : in64 (-9223372036854775808)%Z /\ (-9223372036854775808)%Z <> YR_UNDEFINED.
+Proof. split; [unfold in64, INT64_MIN, INT64_MAX; lia|discriminate]. Qed.
+Example ex_streaming_hyp :   (* a digest context satisfying the two streaming laws: the bytes seen so far *)
+  (forall s a b : list N, (s ++ a) ++ b = s ++ (a ++ b)) /\ (forall s : list N, s ++ [] = s).
+Proof. split; intros; [now rewrite app_assoc|now rewrite app_nil_r]. Qed.
